@@ -38,6 +38,9 @@ impl Prop for C14P {
         }
         for (c, r) in crate::engine::util::shapes(3) {
             v.push(format!("zst {}x{} x", c, r));
+            if c > 0 {
+                v.push(format!("survivors {}x{} x", c, r));
+            }
         }
         v
     }
@@ -53,6 +56,12 @@ impl Prop for C14P {
             super::ops::zst_panic_differential(c, r, &ops, ctx);
             return;
         }
+        if let Some(rest) = unit.strip_prefix("survivors ") {
+            let dims = rest.split(' ').next().unwrap();
+            let (c, r) = dims.split_once('x').unwrap();
+            run_survivors(c.parse().unwrap(), r.parse().unwrap(), ctx);
+            return;
+        }
         let (r, what) = unit.rsplit_once(' ').unwrap();
         let rd = Recv::parse(r);
         if what == "from" {
@@ -66,6 +75,7 @@ impl Prop for C14P {
          copy_from_slice / clone_from_slice from slices of every length 0..=N^2+1: length == area => the destination holds the slice in row-major order and nothing else changed, otherwise panic and nothing changed. \
          copy_from_toodee / clone_from_toodee from owned, strided-view and view_mut sources of every shape: equal size => copied, different size (e.g. (2,3) vs (3,2)) => panic. \
          copy_within for every source rectangle with corners in 0..=dim+1 and every destination corner in (0..=dim+1)^2 plus huge components: fits => the destination rectangle equals the source rectangle's PRIOR contents (model copies through a temporary; every overlap direction and the identical placement occur) and all other cells, including the parent outside a window, are unchanged; does not fit or corners reversed => panic and nothing changed. \
+         Owned destinations reached through a history: every array of owning elements (shapes up to 3x3) that survives an operation in which the k-th call into caller code panicked and was caught (every operation instance, every k, and the fault-free runs) must accept clone_from_slice / clone_from_toodee of exactly num_cols*num_rows cells (and then hold them in row-major order) and reject one cell more or fewer. \
          Arrays and windows of the zero-sized () must accept and reject exactly the same arguments as arrays of ordinary elements. A case is (destination, operation, arguments); non-trivial = accepted call on a non-empty destination; distinct by the tuple."
             .into()
     }
@@ -180,4 +190,55 @@ fn run_within(rd: &Recv, ctx: &mut Ctx) {
             ctx,
         );
     }
+}
+
+/// Owned destinations that survived a caught panic in caller code (or a fault-free operation).
+fn run_survivors(c: usize, r: usize, ctx: &mut Ctx) {
+    use crate::engine::ledger::Tracked;
+    use toodee::CopyOps;
+    super::c11::for_each_survivor(c, r, ctx, &mut |mut t: TooDee<Tracked>, what: &str, cs: &mut Case| {
+        let (nc, nr) = (t.num_cols(), t.num_rows());
+        let area = match nc.checked_mul(nr) {
+            Some(a) if a <= 64 => a,
+            _ => {
+                std::mem::forget(t);
+                return;
+            }
+        };
+        let src = |n: usize| -> Vec<Tracked> { (0..n).map(|i| Tracked::new(700 + i as u32)).collect() };
+        let labels = |t: &TooDee<Tracked>| -> Vec<u32> { t.data().iter().map(|e| e.label).collect() };
+        let want: Vec<u32> = (0..area).map(|i| 700 + i as u32).collect();
+        for (name, n) in [("clone_from_slice (one cell short)", area.wrapping_sub(1)), ("clone_from_slice (one cell more)", area + 1)] {
+            if n > 65 {
+                continue;
+            }
+            let s = src(n);
+            if guarded(|| t.clone_from_slice(&s)).is_ok() {
+                cs.fail("clone_from_slice:accepts-invalid", format!("{}: {} cells offered to a ({},{}) destination and the call returned ({})", what, n, nc, nr, name));
+            }
+        }
+        let s = src(area);
+        match guarded(|| t.clone_from_slice(&s)) {
+            Err(m) => cs.fail("clone_from_slice:panics-on-valid", format!("{}: exactly {} cells offered to a ({},{}) destination but the call panicked: {}", what, area, nc, nr, m)),
+            Ok(()) => {
+                if t.size() != (nc, nr) || labels(&t) != want {
+                    cs.fail("clone_from_slice:wrong-effect", format!("{}: after clone_from_slice the ({},{}) destination has size {:?} and holds {:?}", what, nc, nr, t.size(), labels(&t)));
+                }
+            }
+        }
+        if (nc == 0) == (nr == 0) {
+            let source: TooDee<Tracked> = TooDee::from_vec(nc, nr, src(area));
+            match guarded(|| t.clone_from_toodee(&source)) {
+                Err(m) => cs.fail("clone_from_toodee:panics-on-valid", format!("{}: a source of the destination's size ({},{}) but the call panicked: {}", what, nc, nr, m)),
+                Ok(()) => {
+                    if t.size() != (nc, nr) || labels(&t) != want {
+                        cs.fail("clone_from_toodee:wrong-effect", format!("{}: after clone_from_toodee the ({},{}) destination has size {:?} and holds {:?}", what, nc, nr, t.size(), labels(&t)));
+                    }
+                }
+            }
+        }
+        if t.num_cols().checked_mul(t.num_rows()) != Some(t.data().len()) {
+            std::mem::forget(t);
+        }
+    });
 }
